@@ -213,3 +213,63 @@ package server
 //@   loop 5 invariant bookkeepingUntouched() && (excludeCollectionNames == nil || freshRef2(excludeCollectionNames))
 //@   loop 6 invariant bookkeepingUntouched() && (excludeCollectionNames == nil || freshRef2(excludeCollectionNames))
 //@   loop 7 invariant true
+
+// ---- C05: checkpoints become seek positions on (re)start -----------------------------------------------------------
+// composeTS(p, l): tsoutil.ComposeTS, the hybrid timestamp of physical time p (ms) and logical counter l
+//@ ufunc composeTS (Int Int) Int
+//@ trusted func github.com/milvus-io/milvus/pkg/util/tsoutil.ComposeTS
+//@   params physical logical
+//@   ensures result == composeTS(physical, logical)
+//@   modifies nothing
+// seekOf: the seek map m holds, for every checkpointed channel of the record tp, a position that names that channel,
+// carries the checkpoint's message id and - when the checkpoint has an acknowledged time - the time just after it
+//@ spec seekOf(m map[string]*msgpb.MsgPosition, tp *meta.TaskCollectionPosition) bool = m != nil && (forall ch string :: {mhas(tp.Positions, ch)} ch in tp.Positions ==> ch in m && m[ch] != nil && m[ch].ChannelName == ch && m[ch].MsgID == tp.Positions[ch].DataPair.Data && m[ch].Timestamp == ite(tp.Positions[ch].Time > 0, composeTS(wrap64(tp.Positions[ch].Time + 1), 0), 0))
+// recsWf: what the position store returns for one task - one non-nil record per collection, every channel entry
+// with its message id (records are written that way by UpdateTaskCollectionPosition / Create)
+//@ spec recsWf(tps []*meta.TaskCollectionPosition) bool = (forall i int :: {tps[i]} 0 <= i && i < len(tps) ==> tps[i] != nil && (forall ch string :: {mhas(tps[i].Positions, ch)} ch in tps[i].Positions ==> tps[i].Positions[ch] != nil && tps[i].Positions[ch].DataPair != nil)) && (forall i int, j int :: {tps[i], tps[j]} 0 <= i && i < j && j < len(tps) ==> tps[i].CollectionID != tps[j].CollectionID)
+//@ spec seeksDone(seeks map[int64]map[string]*msgpb.MsgPosition, tps []*meta.TaskCollectionPosition, upto int) bool = forall j int :: {tps[j]} 0 <= j && j <= upto && j < len(tps) ==> (tps[j].CollectionID in seeks) && seekOf(seeks[tps[j].CollectionID], tps[j])
+//@ spec ownMaps(seeks map[int64]map[string]*msgpb.MsgPosition) bool = forall c1 int64, c2 int64 :: {mget(seeks, c1), mget(seeks, c2)} c1 in seeks && c2 in seeks && c1 != c2 ==> seeks[c1] != seeks[c2]
+//@ func (*MetaCDC).startInternal
+//@   props C05
+//@   requires e != nil && info != nil && e.metaStoreFactory != nil
+//@   opaque newReplicateEntity getChannelReader pauseTaskWithReason UpdateTaskState GetShouldReadFunc getRPCChannelName getTaskUniqueIDFromInfo
+//@   loop 1 invariant [every-checkpointed-collection-resumes-from-its-own-checkpoint] recsWf(taskPositions) ==> seeksDone(channelSeekPosition, taskPositions, rangeindex)
+//@   loop 1 invariant [each-collection-has-its-own-seek-map] channelSeekPosition != nil && ownMaps(channelSeekPosition)
+//@   loop 2 invariant recsWf(taskPositions) ==> seeksDone(channelSeekPosition, taskPositions, outerindex)
+//@   loop 2 invariant channelSeekPosition != nil && ownMaps(channelSeekPosition) && collectionSeekPosition != nil && (forall c int64 :: {mget(channelSeekPosition, c)} c in channelSeekPosition ==> channelSeekPosition[c] != collectionSeekPosition)
+//@   loop 2 invariant recsWf(taskPositions) ==> (forall ch string :: {visited(ch)} visited(ch) ==> ch in collectionSeekPosition && collectionSeekPosition[ch] != nil && collectionSeekPosition[ch].ChannelName == ch && collectionSeekPosition[ch].MsgID == taskPosition.Positions[ch].DataPair.Data && collectionSeekPosition[ch].Timestamp == ite(taskPosition.Positions[ch].Time > 0, composeTS(wrap64(taskPosition.Positions[ch].Time + 1), 0), 0))
+
+// ---- C05: checkpoints never run ahead of acknowledged writes --------------------------------------------------------
+// positionWrites: checkpoint writes issued through WriteCallback.UpdateTaskCollectionPosition
+//@ ghost var positionWrites int
+//@ func (*WriteCallback).UpdateTaskCollectionPosition
+//@   props C05
+//@   requires w != nil
+//@   requires w.metaStoreFactory != nil
+//@   requires w.taskID != ""
+//@   requires [only-acknowledged-checkpoints-are-persisted] position != nil ==> position.DataPair != nil && position.DataPair.Data in ackedIDs
+//@   ghostset return positionWrites := positionWrites + 1
+//@   ensures positionWrites == old(positionWrites) + 1 && ackedIDs == old(ackedIDs)
+//@   private ackedIDs positionWrites
+
+//@ func NewWriteCallback
+//@   props C05
+//@   ensures result != nil && freshRef(result) && result.metaStoreFactory == factory && result.taskID == taskID && result.rootPath == rootPath
+//@   modifies fresh(WriteCallback.*)
+
+// the batch callback of the DML loop (startReplicateDMLMsg): writes the packs of a batch in order, then persists one
+// checkpoint per (task, collection, source channel)
+//@ func (*MetaCDC).startReplicateDMLMsg$1$2
+//@   props C05
+//@   requires deref(e) != nil && deref(entity) != nil && deref(entity).writerObj != nil && deref(e).metaStoreFactory != nil
+//@   requires forall i int :: {replicateMsgs[i]} 0 <= i && i < len(replicateMsgs) ==> replicateMsgs[i] != nil && replicateMsgs[i].MsgPack != nil && len(replicateMsgs[i].MsgPack.EndPositions) >= 1 && replicateMsgs[i].TaskID != ""
+//@   opaque pauseTaskWithReason replicateMetric
+//@   private meta.PositionInfo.DataPair commonpb.KeyDataPair.Data UpdatePositionInfo.* maps(string;*UpdatePositionInfo) ackedIDs positionWrites writeCalls writeFailures MetaCDC.metaStoreFactory api.ReplicateMsg.* arrays(*api.ReplicateMsg) msgstream.MsgPack.EndPositions arrays(*msgpb.MsgPosition) ReplicateEntity.writerObj
+//@   ensures [checkpoints-are-written-only-after-every-pack-of-the-batch-was-written-successfully] positionWrites > old(positionWrites) ==> writeCalls == old(writeCalls) + len(replicateMsgs) && writeFailures == old(writeFailures)
+//@   ensures [a-failed-write-writes-no-checkpoint] writeFailures > old(writeFailures) ==> positionWrites == old(positionWrites) && result != nil
+//@   loop 1 invariant writeCalls == old(writeCalls) + rangeindex + 1 && writeFailures == old(writeFailures)
+//@   loop 2 invariant writeCalls == old(writeCalls) + len(replicateMsgs) && writeFailures == old(writeFailures)
+//@   loop 1 invariant positionWrites == old(positionWrites) && deref(e) == old(deref(e)) && deref(entity) == old(deref(entity))
+//@   loop 2 invariant deref(e) == old(deref(e)) && deref(entity) == old(deref(entity))
+//@   loop 1 invariant forall k string :: {mhas(positionInfos, k)} mhas(positionInfos, k) ==> mget(positionInfos, k) != nil && mget(positionInfos, k).position != nil && mget(positionInfos, k).position.DataPair != nil && mget(positionInfos, k).position.DataPair.Data in ackedIDs && mget(positionInfos, k).taskID != ""
+//@   loop 2 invariant forall k string :: {mhas(positionInfos, k)} mhas(positionInfos, k) ==> mget(positionInfos, k) != nil && mget(positionInfos, k).position != nil && mget(positionInfos, k).position.DataPair != nil && mget(positionInfos, k).position.DataPair.Data in ackedIDs && mget(positionInfos, k).taskID != ""
